@@ -1088,11 +1088,26 @@ void execute_assignment(StatementExecutor *executor, Interpreter &interpreter,
                                              "string array assignment");
                 }
             } else if (var->type == TYPE_STRING) {
+                // A string& (parameter or local reference) keeps the address
+                // of the referenced Variable in `value`: that is not a
+                // malloc'd buffer.  Resolve the reference before the
+                // raw-buffer test below.
+                bool via_const_reference = false;
+                if (var->is_reference && !var->is_array && var->value != 0) {
+                    via_const_reference = var->is_const;
+                    var = reinterpret_cast<Variable *>(var->value);
+                }
                 // 通常のstring型変数（str_valueを持つ）の場合
                 if (!var->str_value.empty() || var->value == 0) {
+                    // (assign_string_element resolves the reference itself
+                    // and checks const on both the reference and its target)
                     interpreter.assign_string_element(
                         var_name, index,
                         std::string(1, static_cast<char>(rvalue)));
+                } else if (via_const_reference) {
+                    throw std::runtime_error(
+                        "Cannot modify const variable through reference: " +
+                        var_name);
                 } else {
                     // mallocで確保されたstring型ポインタの場合
                     // var->value がポインタアドレスを持つ
